@@ -96,6 +96,17 @@ void vh_run_case(Ctx &ctx)
     so.initByConstant = false;
     SemModel m = generateSemModel(rng, so);
     IrModel ir = semToIr(m);
+    // Document order is not dependency order: in half of the cases that do not address equations by position the
+    // equations of every component are written in reverse (readers before what they read), so that the order of the
+    // generated code depends on the analyser having every dependency - declared ones included.
+    if (ctx.index % 4 != 2 && ctx.rng.chance(0.5)) {
+        for (auto &c : ir.comps) {
+            for (auto &mm : c.math) {
+                std::reverse(mm.begin(), mm.end());
+            }
+        }
+        stat("models_with_reversed_equation_order");
+    }
     std::string text = writeCellml2(ir, WriteStyle());
     auto model = Parser::create(true)->parseModel(text);
     if (model == nullptr) {
